@@ -96,6 +96,9 @@ func runC08(c *Checker) {
 			if d, ok := in.(*ssa.Defer); ok && d.Block() == fn.Blocks[0] {
 				if f := w.funcValue(d.Common().Value); f != nil && f.Parent() == fn {
 					cl = f
+				} else if sc := d.Common().StaticCallee(); sc != nil && cl == nil && deferredOnlyFrom(w, sc, enc, dec) {
+					// a shared helper deferred by both (trivially identical logic)
+					cl = sc
 				}
 			}
 		})
@@ -106,10 +109,11 @@ func runC08(c *Checker) {
 		c.fail("ROT-SIB", "deferred closures", enc.Pos(), "Encrypt/Decrypt do not both defer a closure in their entry block")
 	} else {
 		se, sd := funcSource(w, ce), funcSource(w, cd)
-		c.decide(se != "" && se == sd, "ROT-SIB", "Encrypt$defer == Decrypt$defer", ce.Pos(), "the two deferred closures are structurally identical: "+se,
+		c.decide(se != "" && (se == sd || ce == cd), "ROT-SIB", "Encrypt$defer == Decrypt$defer", ce.Pos(), "the two deferred closures are structurally identical: "+se,
 			"the nonce/rotation logic of Encrypt and Decrypt differs: sender and receiver rotate keys at different record counts. Encrypt: "+se+" | Decrypt: "+sd)
 		kri := w.Const("mailbox.keyRotationInterval")
-		for _, cl := range []*ssa.Function{ce, cd} {
+		for i, cl := range []*ssa.Function{ce, cd} {
+			owner := []*ssa.Function{enc, dec}[i]
 			okCmp, okRot := false, false
 			allInstrs(cl, func(in ssa.Instruction) {
 				if iff, ok := in.(*ssa.If); ok {
@@ -125,7 +129,7 @@ func runC08(c *Checker) {
 					}
 				}
 			})
-			c.decide(okCmp && okRot, "ROT-SIB", fnName(cl)+"|rotate when nonce == keyRotationInterval", cl.Pos(), "rotateKey on nonce == keyRotationInterval", "key rotation is not triggered exactly at nonce == keyRotationInterval")
+			c.decide(okCmp && okRot, "ROT-SIB", owner.Name()+" deferred|rotate when nonce == keyRotationInterval", cl.Pos(), "rotateKey on nonce == keyRotationInterval", "key rotation is not triggered exactly at nonce == keyRotationInterval")
 		}
 	}
 	c.floor("ROT-SIB", 3)
@@ -237,6 +241,14 @@ func ruleNONCE(c *Checker, rule string, enc, dec, initKey, rot *ssa.Function, fN
 			okk := deferred && w.canonFB(st.Val) == "(1+load(mailbox.cipherState.nonce))" && st.Block() == fn.Blocks[0]
 			c.decide(okk, rule, key, instrPos(st), "nonce+1, unconditionally, in a closure deferred at the entry of "+fnName(fn.Parent()),
 				"the nonce is not incremented by exactly one on every exit of Encrypt/Decrypt: a key/nonce pair can repeat or the two ends lose lock-step")
+		case fn != initKey && fn != enc && fn != dec && deferredOnlyFrom(w, fn, enc, dec):
+			// a shared helper (e.g. cipherState.advance) whose every call site is a defer at the entry of
+			// Encrypt/Decrypt on the same cipher state: equivalent to the two closures
+			okk := w.canonFB(st.Val) == "(1+load(mailbox.cipherState.nonce))" && st.Block() == fn.Blocks[0]
+			for _, owner := range []*ssa.Function{enc, dec} {
+				c.decide(okk, rule, key+"|deferred by "+owner.Name(), instrPos(st), "nonce+1, unconditionally, in a helper that is only ever deferred at the entry of Encrypt/Decrypt",
+					"the nonce is not incremented by exactly one on every exit of Encrypt/Decrypt: a key/nonce pair can repeat or the two ends lose lock-step")
+			}
 		case fn == initKey:
 			k, isK := intConst(st.Val)
 			resetsKey, resetsCipher := false, false
@@ -288,17 +300,8 @@ func ruleNONCE(c *Checker, rule string, enc, dec, initKey, rot *ssa.Function, fN
 			// nonce argument: slice of a local array that was filled by PutUint64(load(nonce))
 			nonceArg := call.Common().Args[1]
 			okk := false
-			if sl, ok := nonceArg.(*ssa.Slice); ok {
-				allInstrs(fn, func(i2 ssa.Instruction) {
-					pc, ok := i2.(*ssa.Call)
-					if !ok || pc.Common().StaticCallee() == nil || pc.Common().StaticCallee().Name() != "PutUint64" {
-						return
-					}
-					dst, ok := pc.Common().Args[1].(*ssa.Slice)
-					if ok && dst.X == sl.X && isLoadOfField(pc.Common().Args[2], fNonce) && instrDominates(pc, call) && isLoadOfField(call.Common().Value, fCipher) {
-						okk = true
-					}
-				})
+			if sl, ok := nonceArg.(*ssa.Slice); ok && isLoadOfField(call.Common().Value, fCipher) {
+				okk = nonceBufferFilled(fn, sl.X, call, fNonce, fn.Params[0], 0)
 			}
 			c.decide(okk, rule, key, instrPos(call), "nonce buffer filled from cipherState.nonce, cipher is cipherState.cipher", "the AEAD nonce is not the implicit counter cipherState.nonce (or the cipher is not the state's cipher)")
 		})
@@ -797,4 +800,133 @@ func localAssemblyBuffer(v ssa.Value) bool {
 		}
 	}
 	return nBytes > 0
+}
+
+// deferredOnlyFrom: every call site of helper is a defer statement in the entry block of
+// one of the owners, with the owner's receiver as the helper's receiver, and each owner
+// has such a defer.
+func deferredOnlyFrom(w *World, helper *ssa.Function, owners ...*ssa.Function) bool {
+	sites, closed := w.CallersOf(helper)
+	if !closed || len(sites) == 0 || helper.Signature.Recv() == nil {
+		return false
+	}
+	seen := map[*ssa.Function]bool{}
+	for _, s := range sites {
+		d, ok := s.Instr.(*ssa.Defer)
+		if !ok {
+			return false
+		}
+		owner := d.Parent()
+		isOwner := false
+		for _, o := range owners {
+			if o == owner {
+				isOwner = true
+			}
+		}
+		if !isOwner || d.Block() != owner.Blocks[0] || len(d.Common().Args) == 0 || !sameParam(d.Common().Args[0], owner.Params[0]) {
+			return false
+		}
+		seen[owner] = true
+	}
+	return len(seen) == len(owners)
+}
+
+// nonceBufferFilled: the array at address arr (a local of fn) holds the little-endian
+// counter: either fn itself calls PutUint64(arr[k:], load(recv.nonce)) before use, or arr
+// is initialised from the result of a helper method called on the same receiver whose
+// returned array is filled that way.
+func nonceBufferFilled(fn *ssa.Function, arr ssa.Value, use ssa.Instruction, fNonce *types.Var, recv ssa.Value, depth int) bool {
+	if depth > 2 {
+		return false
+	}
+	direct := false
+	allInstrs(fn, func(i2 ssa.Instruction) {
+		pc, ok := i2.(*ssa.Call)
+		if !ok || pc.Common().StaticCallee() == nil || pc.Common().StaticCallee().Name() != "PutUint64" {
+			return
+		}
+		dst, ok := pc.Common().Args[1].(*ssa.Slice)
+		if !ok || dst.X != arr {
+			return
+		}
+		ld, isLoad := unwrapLoadAlloc(pc.Common().Args[2]).(*ssa.UnOp)
+		if !isLoad || ld.Op != token.MUL {
+			return
+		}
+		fa, isFA := ld.X.(*ssa.FieldAddr)
+		if !isFA || structFieldOf(fa) != fNonce || !sameParam(fa.X, recv) {
+			return
+		}
+		if use == nil || instrDominates(pc, use) {
+			direct = true
+		}
+	})
+	if direct {
+		return true
+	}
+	al, ok := arr.(*ssa.Alloc)
+	if !ok {
+		return false
+	}
+	// arr = helper(recv)
+	var stores []*ssa.Store
+	for _, r := range *al.Referrers() {
+		if st, ok := r.(*ssa.Store); ok && st.Addr == ssa.Value(al) {
+			stores = append(stores, st)
+		}
+	}
+	if len(stores) != 1 {
+		return false
+	}
+	hc, ok := stores[0].Val.(*ssa.Call)
+	if !ok || hc.Common().StaticCallee() == nil || len(hc.Common().Args) == 0 || !sameParam(hc.Common().Args[0], recv) {
+		return false
+	}
+	h := hc.Common().StaticCallee()
+	if len(h.Blocks) == 0 || len(h.Params) == 0 {
+		return false
+	}
+	okAll, n := true, 0
+	allInstrs(h, func(in ssa.Instruction) {
+		ret, ok := in.(*ssa.Return)
+		if !ok || len(ret.Results) != 1 {
+			return
+		}
+		n++
+		ld, ok := ret.Results[0].(*ssa.UnOp)
+		if !ok || ld.Op != token.MUL {
+			okAll = false
+			return
+		}
+		if !nonceBufferFilled(h, ld.X, ret, fNonce, h.Params[0], depth+1) {
+			okAll = false
+		}
+	})
+	return okAll && n > 0
+}
+
+// sameParam: v is the parameter p itself or a load of the cell p was spilled to (go/ssa
+// spills a parameter that is captured by a closure; the cell has exactly one store, of p).
+func sameParam(v ssa.Value, p ssa.Value) bool {
+	if v == p {
+		return true
+	}
+	u, ok := v.(*ssa.UnOp)
+	if !ok || u.Op != token.MUL {
+		return false
+	}
+	al, ok := u.X.(*ssa.Alloc)
+	if !ok || al.Referrers() == nil {
+		return false
+	}
+	n := 0
+	for _, r := range *al.Referrers() {
+		if st, ok := r.(*ssa.Store); ok && st.Addr == ssa.Value(al) {
+			n++
+			if st.Val != p {
+				return false
+			}
+		}
+	}
+	return n == 1
 }
